@@ -22,7 +22,8 @@ What is mirrored, function by function:
 * `LASRead._process_file`   → `topLevel`, `step`, `finish`, `parse`.
 
 Not modelled (the model answers `Err.unsupported`): curves `DATE .D` / `TIME .HHMMSS` (strptime).
-Equality of floats (duplicate X, `VERS in (1.2, 2.0)`) is decided on the exact decimals, not on the rounded doubles.
+Equality of floats (duplicate X, `VERS in (1.2, 2.0)`, masking) is decided on the exact decimals (`canonDec`: no power
+of ten is ever computed; magnitudes beyond the double range compare like inf / 0.0), not on the rounded doubles.
 -/
 namespace TD.C09
 
@@ -270,10 +271,32 @@ structure LasFile where
   array : Option ArrayData
   deriving DecidableEq, Repr, Inhabited
 
-/-- exact comparison of m₁·10^e₁ and m₂·10^e₂ -/
-def numEq (a b : Int × Int) : Bool :=
-  let lo := min a.2 b.2
-  a.1 * 10 ^ (a.2 - lo).toNat == b.1 * 10 ^ (b.2 - lo).toNat
+/-- number of decimal digits of `n` (`fuel` ≥ that number; 0 for fuel 0) -/
+def digitCount : Nat → Nat → Nat
+  | 0, _ => 0
+  | f + 1, n => if n < 10 then 1 else 1 + digitCount f (n / 10)
+
+/-- strip trailing decimal zeros of the mantissa: m·10^e = m'·10^e' with 10 ∤ m' (`fuel` ≥ number of digits of m) -/
+def stripZeros : Nat → Int → Int → Int × Int
+  | 0, m, e => (m, e)
+  | f + 1, m, e => if m % 10 = 0 then stripZeros f (m / 10) (e + 1) else (m, e)
+
+/-- Canonical form of the DOUBLE a decimal m·10^e denotes, as far as equality is concerned, WITHOUT ever computing
+10^e: zero is `(0, 0)`; a magnitude of 10^310 or more is what `float()` returns as ±inf (`(±1, 1000000)`); a magnitude
+below 10^-330 is what `float()` returns as 0.0; otherwise the normalised pair (mantissa without trailing zeros,
+exponent), which identifies the rational exactly.  (Between the largest double 1.8·10^308 and 10^310, and for distinct
+decimals closer than half an ulp, equality of the doubles is not decided by this form: not generated.) -/
+def canonDec (a : Int × Int) : Int × Int :=
+  if a.1 = 0 then (0, 0) else
+  let fuel := Nat.log2 a.1.natAbs + 1
+  let n := stripZeros fuel a.1 a.2
+  let p : Int := (digitCount fuel n.1.natAbs : Int) + n.2       -- the value lies in [10^(p-1), 10^p)
+  if p > 310 then (if a.1 < 0 then -1 else 1, 1000000)
+  else if p < -330 then (0, 0)
+  else n
+
+/-- comparison of m₁·10^e₁ and m₂·10^e₂ (exact on rationals inside the double range, inf/0.0 outside) -/
+def numEq (a b : Int × Int) : Bool := canonDec a == canonDec b
 
 /-- Python `==` between two values as used for dict keys / tuple membership (numbers compare by value). -/
 def asNum : Value → Option (Int × Int)
